@@ -284,8 +284,10 @@ struct World
 					bad("connect-reached-socket-not-holding-binding"
 						, fmt("connect #%d addressed to %s was accepted by %s, which the reference says %s", c->id, ap_str(c->taddr, c->tport).c_str(), who.c_str()
 							, s.bound ? ("is bound to " + ap_str(s.addr, s.port)).c_str() : (s.open ? "is not bound" : "is closed")));
-				else if (!s.listening && !s.listen_unknown)
-					bad("non-listening-socket-answered", fmt("connect #%d to %s was accepted by %s although listen() was never called on it since it was opened"
+				// (whether somebody listened there is decided when the connect is made: an attempt that was queued while the
+				// acceptor listened may be accepted after the acceptor re-took the same endpoint, the statement allows it)
+				else if (c->exp == X_FAIL)
+					bad("non-listening-socket-answered", fmt("connect #%d to %s was accepted by %s although nobody listened on that endpoint when the connect was made"
 						, c->id, ap_str(c->taddr, c->tport).c_str(), who.c_str()));
 			}
 			else if (!(c->taddr == probe_node().ips[std::size_t(-2 - p->slot)] && c->tport == 7000))
